@@ -167,16 +167,97 @@ def deep_realize(x):
     return x
 
 
+def _model_value(space, x):
+    import z3
+    v = space.solver.model().eval(x.var, model_completion=True)
+    if z3.is_int_value(v):
+        return v.as_long()
+    if z3.is_true(v) or z3.is_false(v):
+        return bool(z3.is_true(v))
+    return None
+
+
+def pin(values):
+    """Concrete values for symbolic integers WITHOUT forking the search: one model of the path
+    condition is taken and each value is then asserted on this path only (no decision node is
+    created, so the other values are not enumerated by later paths — CrossHair's realize() would).
+    Only used on a path that is about to be reported."""
+    if MODE != 'symbolic':
+        return [int(v) for v in values]
+    proxy_for_type, realize, NoTracing, context_statespace = _crosshair()
+    out = []
+    with NoTracing():
+        space = context_statespace()
+        for x in values:
+            if not hasattr(x, 'var'):
+                out.append(int(x))
+                continue
+            if str(space.solver.check()) != 'sat':
+                raise RuntimeError('path condition not satisfiable while pinning')
+            v = _model_value(space, x)
+            space.add(x.var == v)
+            out.append(v)
+    return out
+
+
+def concretize(obj, depth=0):
+    """Plain-data copy of a report structure: symbolic ints/bools are replaced by their pinned /
+    model values, anything else symbolic by a placeholder.  Never forks."""
+    if MODE != 'symbolic':
+        return obj
+    proxy_for_type, realize, NoTracing, context_statespace = _crosshair()
+    with NoTracing():
+        return _concretize(obj, context_statespace(), 0)
+
+
+def _concretize(obj, space, depth):
+    if depth > 6:
+        return '...'
+    if hasattr(type(obj), '__ch_realize__'):
+        if hasattr(obj, 'var'):
+            try:
+                if str(space.solver.check()) == 'sat':
+                    v = _model_value(space, obj)
+                    if v is not None:
+                        space.add(obj.var == v)
+                        return v
+            except Exception:
+                pass
+        return '<symbolic %s>' % type(obj).__name__
+    if isinstance(obj, dict):
+        return dict((_concretize(k, space, depth + 1), _concretize(v, space, depth + 1)) for k, v in obj.items())
+    if isinstance(obj, (list, tuple)):
+        return [_concretize(v, space, depth + 1) for v in obj]
+    if isinstance(obj, (str, int, float, bool, type(None))):
+        return obj
+    try:
+        return repr(obj)[:200]
+    except BaseException:
+        return '<%s>' % type(obj).__name__
+
+
 def decisions():
-    """The decision list of the current path, symbolic ints realised (call with tracing on,
-    only on a path that is about to be reported: realising adds constraints)."""
+    """The decision list of the current path; symbolic integers get the values of one model of the
+    path condition (pinned, not enumerated)."""
+    ints = [d[1] for d in st.trace if isinstance(d, tuple)]
+    vals = iter(pin(ints))
     out = []
     for d in st.trace:
         if isinstance(d, tuple):
-            out.append(int(realize(d[1])))
+            out.append(int(next(vals)))
         else:
             out.append(bool(d))
     return out
+
+
+def resumed():
+    """Context that makes sure tracing is ON (harness code reached from inside a CrossHair-patched
+    builtin runs untraced, where operations on symbolic values are not allowed)."""
+    if MODE == 'symbolic':
+        from crosshair.tracers import ResumedTracing, is_tracing
+        if not is_tracing():
+            return ResumedTracing()
+    return contextlib.nullcontext()
 
 
 def ignore_path():
